@@ -100,3 +100,57 @@ Example bind_examples :
   bind_outputs true [("a", true); ("b", true)] RNone = Some [("a", PyNone); ("b", PyNone)] /\
   bind_outputs true [] (ROther 4) = None.
 Proof. repeat split; reflexivity. Qed.
+
+(* ------------------------------------------------------------------ shell bodies: return code => outcome *)
+From Pydra Require Import Proofs.CacheSeq.
+
+Lemma shell_outcome_nonzero rc files v : rc <> 0%Z -> shell_outcome rc files v = Err.
+Proof. intros H. unfold shell_outcome. destruct (Z.eqb_spec rc 0); [contradiction|reflexivity]. Qed.
+
+Lemma shell_outcome_zero files v : files_present files = true -> shell_outcome 0 files v = Ok v.
+Proof. intros H. unfold shell_outcome. cbn. now rewrite H. Qed.
+
+(* a shell task whose body is executed: its stored result, what the submission reports and what a
+   later submission does, from the command's return code *)
+Theorem shell_nonzero_never_cached_as_success w cfg c s rr rc files v :
+  body w c (clock s) (execs s c) = shell_outcome rc files v ->
+  early_exit cfg rr (st s) c = None ->                       (* the body is entered *)
+  let '(s1, evs, r) := submit w cfg rr (Leaf c) s in
+  (rc <> 0%Z ->
+     r = Err /\ st s1 (root cfg) c = Complete Err /\ last_run c evs = Some Err /\
+     forall w2 cfg2 s2 rr2, root cfg2 = root cfg -> st s2 (root cfg) c = Complete Err ->
+       let '(s3, evs3, r3) := run_job w2 cfg2 rr2 (Leaf c) s2 in last_run c evs3 = Some r3) /\
+  (rc = 0%Z -> files_present files = true -> r = Ok v /\ st s1 (root cfg) c = Complete (Ok v)).
+Proof.
+  intros Hb He. rewrite (submit_reports_outcome w cfg rr (Leaf c) s eq_refl).
+  destruct (run_job w cfg rr (Leaf c) s) as [[s1 evs] r] eqn:E.
+  pose proof E as E0. cbn [run_job tid] in E0. rewrite He in E0. cbn [with_dir clock execs] in E0. rewrite Hb in E0.
+  injection E0 as <- <- <-. cbn [bump with_dir st]. unfold set_dir. rewrite !Nat.eqb_refl. cbn [andb app].
+  split.
+  - intros Hrc. rewrite (shell_outcome_nonzero rc files v Hrc). repeat split.
+    + cbn. now rewrite Nat.eqb_refl.
+    + intros w2 cfg2 s2 rr2 Hroot Hs2.
+      rewrite (shell_outcome_nonzero rc files v Hrc) in E.
+      destruct (failure_reexecuted w cfg (Leaf c) s rr eq_refl _ _ E) as [_ H].
+      exact (H w2 cfg2 s2 rr2 Hroot Hs2).
+  - intros -> Hf. rewrite (shell_outcome_zero files v Hf). auto.
+Qed.
+
+Example shell_outcome_examples :
+  shell_outcome (-9) [] 5 = Err /\ shell_outcome (-15) [] 5 = Err /\ shell_outcome 255 [] 5 = Err /\
+  shell_outcome 127 [] 5 = Err /\ shell_outcome 126 [] 5 = Err /\ shell_outcome 3 [] 5 = Err /\
+  shell_outcome 0 [] 5 = Ok 5 /\ shell_outcome 0 [(true, false)] 5 = Err /\
+  shell_outcome 0 [(false, false); (true, true)] 5 = Ok 5.
+Proof. repeat split; reflexivity. Qed.
+
+(* the theorem's hypotheses are met: a world whose body for identity 3 is a command killed by SIGKILL
+   at step 0 and exiting 0 afterwards, run twice from the empty store *)
+Example shell_nonvacuous :
+  let w := {| body := fun c k _ => shell_outcome (if Nat.eqb k 0 then (-9) else 0) [] 7; wfout := fun _ _ _ => Ok 0 |} in
+  let cfg := {| root := 0; ro := []; prop := true |} in
+  early_exit cfg false (st init_state) 3 = None /\
+  (let '(s1, evs, r) := submit w cfg false (Leaf 3) init_state in
+   r = Err /\ st s1 0 3 = Complete Err /\
+   let '(s2, evs2, r2) := submit w cfg false (Leaf 3) (tick s1) in
+   r2 = Ok 7 /\ st s2 0 3 = Complete (Ok 7) /\ last_run 3 evs2 = Some (Ok 7)).
+Proof. vm_compute. repeat split; reflexivity. Qed.
